@@ -93,6 +93,11 @@ def run(chk):
                 lambda s=withdup, nb=nb: [list(p) for p in ds.find_neighbor_pairs(s, nb)], lambda v: sorted(map(list, v)), "pairs")
             add({"op": "find_neighbor_pairs_index", "xs": uniq, "A": alpha, "ham": ham},
                 lambda s=uniq, nb=nb: [[int(a), int(b)] for a, b in ds.find_neighbor_pairs_index(s, nb)], lambda v: sorted(map(list, v)), "pairs")
+            # (the docstring asks for unique sequences; with a repeated one every position still names ITS sequence, and the partner is
+            #  given by its first position)
+            shuffled = rng.sample(withdup, len(withdup))
+            add({"op": "find_neighbor_pairs_index", "xs": shuffled, "A": alpha, "ham": ham},
+                lambda s=shuffled, nb=nb: [[int(a), int(b)] for a, b in ds.find_neighbor_pairs_index(s, nb)], lambda v: sorted(map(list, v)), "pairs")
             add({"op": "neighbor_numbers", "xs": withdup, "A": alpha, "ham": ham},
                 lambda s=withdup, nb=nb: [int(v) for v in ds.calculate_neighbor_numbers(s, neighborhood=nb)], list, "numbers")
             ref = rng.sample(pool, rng.randint(1, 10))
